@@ -288,6 +288,8 @@ def classify(lines, idx, verdict):
                             any(r[0] == ">" for r in (rr or []) + r2):
                         tags.append("exact_union_denied_open_bound_involved")
             if "lhs_ge2_vars" in tags and "recv_SPR" in tags: tags.append("lhs_ge2_vars_recv_reduced")
+            if kind == "box" and "T_float" in tags and name in ("refine_cons", "refine_cgs", "bnd_img", "bnd_pre", "gen_img", "gen_img2", "gen_pre", "gen_pre2"):
+                tags.append("Box_float_refine_rounding")     # these call refine_with_constraint / propagate_constraint internally
             tags += arg_number_tags(op[3:], tname, tags)
             r2x = rows_of_slot(lines, opi, op[3]) if len(op) == 4 else None
             tags += overflow_tags([rr, r2x], op[3:], tname, cls)
